@@ -53,6 +53,9 @@ int libwifi_get_wifi_frame(struct libwifi_frame *fi, const unsigned char *frame,
 
         // Remove the FCS from the end of the frame data, if present
         if (rtap_info.flags & IEEE80211_RADIOTAP_F_FCS) {
+            if (frame_data_len < sizeof(uint32_t)) {
+                return -EINVAL;
+            }
             fi->flags |= LIBWIFI_FLAGS_FCS_PRESENT;
             frame_data_len -= sizeof(uint32_t); // FCS is 4 bytes wide
         }
